@@ -203,7 +203,25 @@ where
     CK<S>: LinCodeParametersInfo<MT, ColH<Fr381>>,
 {
     let q = modulus_of::<Fr381>();
-    for cfg in slice_c::<S>(rec.thorough()) {
+    let mut cfgs = slice_c::<S>(rec.thorough());
+    // code rates whose inverse is not a power of two (Ligero): the distance is 1 - 1/rho_inv all the same
+    if S::NAME == "LIG" {
+        for lc in [(128usize, 3usize, true), (128, 5, false), (100, 6, true)] {
+            let mut c = KeyCfg::uni(1 << 20, 1 << 20, 1, None);
+            c.lc = Some(lc);
+            cfgs.push(c);
+        }
+    }
+    if S::NAME == "MLL" {
+        for nv in [4usize, 9] {
+            for lc in [(128usize, 3usize, true), (100, 6, false)] {
+                let mut c = KeyCfg::ml(nv);
+                c.lc = Some(lc);
+                cfgs.push(c);
+            }
+        }
+    }
+    for cfg in cfgs {
         let shapes = S::shapes_c(&cfg, rec.seed, rec.thorough());
         let mut todo = Vec::new();
         for (sname, p) in shapes.iter() {
